@@ -111,6 +111,13 @@ def gen_c01(rng, fs, i, cfg):
                   mode="w" if rng.random() < 0.05 else "a")
         if have and rng.random() < 0.2 and cfg.get("faults", True):
             _faulted(rng, op)
+        elif op["dtypes"].get("count") == "int32" and op["form"] in ("iter", "iterdict") and rng.random() < 0.12:
+            sizes = [len(c["bin1_id"]) for c in op["chunks"]]
+            cand = [k for k, n_ in enumerate(sizes) if n_ > 0]
+            if cand:
+                k = rng.choice(cand)
+                op["wide_chunk"] = {"chunk": k, "dtype": rng.choice(["int64", "float64"]),
+                                    "row": rng.randrange(sizes[k]), "value": 2**31 + rng.randint(0, 10**6)}
         return op
     return gen_c15(rng, fs, i, cfg)
 
@@ -212,17 +219,29 @@ def gen_c07(rng, fs, i, cfg):
         op = _same_layout_create(rng, cfg, lay, symm, spec, cfg.get("maxpx", 40),
                                  density=rng.choice([None, None, "empty", "dense", "diag"]))
         if ctx["big"] and spec["count"] == "int32":
+            # near-limit magnitudes on all pixels, or only in the later rows (an overflow that
+            # first appears in a late merge epoch)
+            late_only = rng.random() < 0.5
+            nb_ = gen.nbins_of(lay)
             for ch in op["chunks"]:
-                ch["count"] = [rng.randint(2**29, 2**30 + 2**29) for _ in ch["count"]]
+                ch["count"] = [rng.randint(2**29, 2**30 + 2**29) if (not late_only or b1 >= nb_ // 2) else c_
+                               for c_, b1 in zip(ch["count"], ch["bin1_id"])]
         r = rng.random()
-        if r < 0.10:
+        if r < 0.13:
             # an incompatible input of every kind: unrelated layout, other storage mode, or a
             # near miss (one length, one name, one inner edge, the bin width changed)
             rr = rng.random()
-            if rr < 0.2:
+            if rr < 0.15:
                 op = _same_layout_create(rng, cfg, gen.gen_layout(rng, 3, 6), symm, spec, 20)
-            elif rr < 0.4:
+            elif rr < 0.5:
+                # the other storage mode over the same table; a square input without any
+                # lower-triangle pixel half of the time (nothing but the mode attribute differs)
                 op = _same_layout_create(rng, cfg, lay, not symm, spec, 20)
+                if symm and rng.random() < 0.5:
+                    for ch in op["chunks"]:
+                        keep = [k for k in range(len(ch["bin1_id"])) if ch["bin1_id"][k] <= ch["bin2_id"][k]]
+                        for c in list(ch):
+                            ch[c] = [ch[c][k] for k in keep]
             else:
                 op = _same_layout_create(rng, cfg, perturb_layout(rng, lay), symm, spec, 20)
         fid = rng.choice(["f0", "f1"])
@@ -261,6 +280,10 @@ def gen_c07(rng, fs, i, cfg):
         op["cli"] = True
         if fid not in fs.files and rng.random() < 0.5:
             op["mode"] = "w"
+    elif rng.random() < 0.12:
+        # an input (or output) open fails, possibly several times in a row: the merge may fail,
+        # it must never return wrong data
+        op["fault"] = {"kind": "F4", "open": rng.randint(0, 6 + 4 * len(ins)), "width": rng.choice([1, 1, 2, 3, 4])}
     return op
 
 
@@ -285,6 +308,8 @@ def gen_coarsen_op(rng, fs, src, i, prop="C08", allow_pool=True):
           "cli": cli, "fault": None}
     if fid not in fs.files and rng.random() < 0.3:
         op["path"] = "/"
+    if not cli and rng.random() < 0.15:
+        op["lock_none"] = True
     extra = [c for c in coll.value_columns if c != "count"]
     if extra and rng.random() < 0.6:
         op["columns"] = ["count"] + extra
@@ -305,9 +330,18 @@ def gen_c08(rng, fs, i, cfg):
         else:
             lay = gen.gen_layout(rng, cfg.get("maxchroms", 4), cfg.get("maxbins", 9), kind)
             ctx["layout"] = lay
+        if "bigsrc" not in ctx:
+            # now and then a source with enough pixels for > 100 one-pixel spans (long-lived
+            # pools: worker recycling, many batches)
+            ctx["bigsrc"] = rng.random() < 0.08
+            if ctx["bigsrc"]:
+                lay = gen.gen_layout(rng, 3, 14, rng.choice(["fixed", "variable"]))
+                ctx["layout"] = lay
         op = _same_layout_create(rng, cfg, lay, ctx.setdefault("symmetric", rng.random() < 0.7),
-                                 ctx.setdefault("colspec", gen.gen_colspec(rng)), cfg.get("maxpx", 60),
-                                 density=rng.choice([None, "dense", "dense", "sparse", "row", "lastrow"]))
+                                 ctx.setdefault("colspec", gen.gen_colspec(rng)),
+                                 180 if ctx["bigsrc"] else cfg.get("maxpx", 60),
+                                 density="dense" if ctx["bigsrc"] else
+                                 rng.choice([None, "dense", "dense", "sparse", "row", "lastrow"]))
         for ch in op["chunks"]:
             for col, dt in op["dtypes"].items():
                 if "int" in dt:
@@ -322,6 +356,21 @@ def gen_c08(rng, fs, i, cfg):
     if not have:
         return None
     r = rng.random()
+    if r > 0.90 and ctx["srcs"]:
+        # the source is replaced by another matrix over another table of the same size:
+        # a later coarsening of the same URI must see the new one
+        import copy as _copy
+        fid, path = rng.choice(ctx["srcs"])
+        node = fs.lookup(fid, path) if fid in fs.files else None
+        if node is not None and isinstance(node.coll, Coll):
+            lay2 = perturb_layout(rng, ctx["layout"]) if rng.random() < 0.7 else ctx["layout"]
+            op = _same_layout_create(rng, cfg, lay2, ctx["symmetric"], ctx["colspec"], cfg.get("maxpx", 60))
+            for ch in op["chunks"]:
+                for col, dt in op["dtypes"].items():
+                    if "int" in dt:
+                        ch[col] = [min(v, 1000) for v in ch[col]]
+            op.update(file=fid, path=path, mode="a")
+            return op
     if r < 0.15 and len(have) >= 2:
         # merge/coarsen interleaving
         ins = rng.sample(have, 2)
@@ -329,7 +378,12 @@ def gen_c08(rng, fs, i, cfg):
         return {"op": "merge", "file": rng.choice(out), "path": "/m%d" % i, "mode": "a",
                 "inputs": [{"file": f, "path": p} for f, p in ins], "mergebuf": rng.choice([2, 7, 10**6]),
                 "columns": None, "agg": None, "fault": None}
-    return gen_coarsen_op(rng, fs, rng.choice(have), i)
+    op = gen_coarsen_op(rng, fs, rng.choice(have), i)
+    if ctx.get("bigsrc") and rng.random() < 0.7:
+        op["chunksize"] = rng.choice([1, 1, 2])
+        op["nproc"] = rng.choice([2, 2, 3])
+        op["cli"] = False
+    return op
 
 
 # ===========================================================================
@@ -383,6 +437,12 @@ def gen_c09(rng, fs, i, cfg):
                         ops = []
                         break
                     op = coll_to_create(c2)
+                    if rng.random() < 0.4 and op["dtypes"].get("count") == "int32":
+                        # bases of different value dtypes (each level inherits its own base's dtype)
+                        op["dtypes"]["count"] = rng.choice(["int64", "float64"])
+                        if op["dtypes"]["count"] == "float64":
+                            for ch in op["chunks"]:
+                                ch["count"] = [float(v) + rng.choice([0.0, 0.5, 0.25]) for v in ch["count"]]
                     op.update(file=f, path="/", mode="a")
                     ops.append(op)
                     ctx["bases"].append((f, "/"))
@@ -394,7 +454,8 @@ def gen_c09(rng, fs, i, cfg):
         return ctx["pending"].pop(0)
     if ctx["stage"] == 2:
         ctx["stage"] = 3
-        bases = ctx["bases"]
+        bases = list(ctx["bases"])
+        rng.shuffle(bases)
         res = []
         for f, p in bases:
             n = fs.lookup(f, p)
@@ -421,10 +482,14 @@ def gen_c09(rng, fs, i, cfg):
         extra = [c for c in c0.value_columns if c != "count"]
         if extra and rng.random() < 0.5 and all(set(extra) <= set(fs.lookup(f, p).coll.value_columns) for f, p in bases):
             cols = ["count"] + extra
-        return {"op": "zoomify", "file": "f2", "bases": [{"file": f, "path": p} for f, p in bases],
-                "resolutions": targets, "chunksize": rng.choice([1, 2, 3, 7, max(1, nnz // 2), nnz + 1, 10**7]),
-                "nproc": rng.choice([1, 2, 2, 3, 4]), "cli": rng.random() < 0.25 and cols is None,
-                "columns": cols, "as_list": rng.random() < 0.5}
+        zop = {"op": "zoomify", "file": "f2", "bases": [{"file": f, "path": p} for f, p in bases],
+               "resolutions": targets, "chunksize": rng.choice([1, 2, 3, 7, max(1, nnz // 2), nnz + 1, 10**7]),
+               "nproc": rng.choice([1, 2, 2, 3, 4]), "cli": rng.random() < 0.25 and cols is None,
+               "columns": cols, "as_list": rng.random() < 0.5}
+        if rng.random() < 0.12:
+            # the run stops somewhere: the file must not pass for a complete multires file
+            zop["fault"] = {"kind": "F4", "open": rng.randint(0, 40), "width": 1}
+        return zop
     return None
 
 
@@ -433,6 +498,16 @@ def gen_c09(rng, fs, i, cfg):
 # ===========================================================================
 def gen_c06(rng, fs, i, cfg):
     ctx = _ctx(cfg)
+    have = [(f, p) for f in ("f0", "f1") for p in cooler_paths(fs, f)]
+    if have and rng.random() < 0.08:
+        # a merge with a custom aggregation earlier in the same process must not influence
+        # how later ingestions combine repeated pixels
+        f_, p_ = rng.choice(have)
+        cols = fs.lookup(f_, p_).coll.value_columns
+        return {"op": "merge", "file": "f3", "path": "/agg%d" % i, "mode": "a",
+                "inputs": [{"file": f_, "path": p_}, {"file": f_, "path": p_}], "mergebuf": rng.choice([2, 10**6]),
+                "columns": list(cols) if cols != ["count"] else None,
+                "agg": {rng.choice(cols): rng.choice(["max", "min"])}, "fault": None}
     if ctx.get("last") is not None and rng.random() < 0.5:
         # the same record multiset, partitioned and ordered differently
         base = ctx["last"]
@@ -512,6 +587,7 @@ def gen_scool(rng, cfg, fault=False):
     rng.shuffle(insert)
     op = {"op": "scool", "layout": lay, "symmetric": symm, "dtypes": colspec, "cells": cells,
           "insert_order": insert, "bins_reversed": rng.random() < 0.3,
+          "bins_index": {nm: rng.choice(["default", "default", "offset", "permuted"]) for nm in names},
           "bins_as_dict": per_cell, "metadata": rng.choice(gen.METADATA), "assembly": rng.choice(gen.ASSEMBLIES),
           "fault": None}
     if fault:
@@ -537,9 +613,31 @@ def gen_c17(rng, fs, i, cfg):
         fid = "f0" if not ctx.get("made") else rng.choice(["f0", "f1"])
         op = gen_scool(rng, cfg, fault=cfg.get("faults", True) and rng.random() < 0.25)
         op.update(file=fid, mode="a" if (fid in fs.files and not ctx.get("made")) else "w")
+        if ctx.get("made") and fid in fs.files and fs.files[fid].tag == "scool" and rng.random() < 0.5 \
+                and not op.get("fault"):
+            # append more cells to an existing single-cell file, over a table of the same shape
+            op["mode"] = "a"
+            prev = ctx.get("last_scool")
+            if prev is not None and rng.random() < 0.7:
+                import copy as _copy
+                lay2 = _copy.deepcopy(prev["layout"])
+                e = lay2["edges"][rng.randrange(len(lay2["edges"]))]
+                e[-1] += 1                      # same nbins/nchroms/width, another extent
+                n2 = gen.nbins_of(lay2)
+                if n2 == gen.nbins_of(op["layout"]) or True:
+                    op["layout"] = lay2
+                    for nm, c in op["cells"].items():
+                        sup = gen.gen_support(rng, n2, op["symmetric"], None, 20)
+                        rec = gen.pixels_record(sup, gen.gen_values(rng, len(sup), op["dtypes"]))
+                        c["chunks"] = [rec]
+                        c["form"] = "df"
+                        if c.get("bin_extra"):
+                            c["bin_extra"] = {"w": [gen.dyadic(rng, 0, 2) for _ in range(n2)]}
         if op["mode"] == "w" and fid in fs.files and rng.random() < 0.0:
             pass
         ctx["made"] = True
+        if not op.get("fault"):
+            ctx["last_scool"] = op
         return op
     # later append operations on the file; every cell must still read back
     fid = rng.choice([f for f in sorted(fs.files)] or ["f0"])
@@ -573,6 +671,18 @@ def gen_c18(rng, fs, i, cfg):
     r = rng.random()
     f, p = rng.choice(have)
     coll = fs.lookup(f, p).coll
+    if r < 0.06 and len(coll.chromnames) >= 2:
+        # a map that only permutes existing names (swap or cycle): no new name appears
+        names = coll.chromnames
+        k = rng.randint(2, min(3, len(names)))
+        sub = rng.sample(names, k)
+        m = {sub[j]: sub[(j + 1) % k] for j in range(k)}
+        return {"op": "rename", "file": f, "path": p, "map": m, "held": rng.random() < 0.5,
+                "slash": rng.random() < 0.7}
+    if r < 0.09:
+        # a rename that must fail (a name that cannot be stored): the collection stays as it was
+        return {"op": "rename", "file": f, "path": p, "map": {rng.choice(coll.chromnames): "chr\u00e9\u4e2d"},
+                "held": rng.random() < 0.5, "expect_failure": True}
     if r < 0.5:
         names = coll.chromnames
         sub = rng.sample(names, rng.randint(1, len(names)))
@@ -716,6 +826,9 @@ def gen_c11(rng, fs, i, cfg):
             dead = rng.randrange(n)
             support = [p for p in support if dead not in p]
         vals = [rng.randint(1, 30) for _ in support]
+        if rng.random() < 0.2:
+            # explicitly stored zeros (valid; they arise from cancellation too): not "non-zero" pixels
+            vals = [0 if rng.random() < 0.25 else v for v in vals]
         rec = gen.pixels_record(support, {"count": vals})
         op = {"op": "create", "layout": lay, "symmetric": True, "dtypes": {"count": "int32"}, "form": "df",
               "chunks": [rec], "arraychunk": None, "h5opts": {"compression": None, "shuffle": False},
